@@ -54,6 +54,8 @@ def gen_tasks(tier, seed):
                 c = rng.sample(wes, 2)
                 c = [list(e) for e in dict.fromkeys(c)]
                 tasks.append({**base, "constraints": [c], "kwargs": {"weight_type": "int", "subset_constraints": [c]}})
+                cd = [c[0], c[-1], c[0]]          # the same edge listed twice in one constraint
+                tasks.append({**base, "constraints": [cd], "kwargs": {"weight_type": "int", "subset_constraints": [cd]}})
             if sum(fl.values()) <= 14 and (tier != "quick" or rng.random() < 0.3):
                 tasks.append({**base, "specx": True, "kwargs": {"weight_type": "int"}})
             # scale invariance
